@@ -19,7 +19,7 @@ for sid in ids:
     checks = [meta['property']] + EXTRA.get(sid, [])
     work = tempfile.mkdtemp(prefix='sweep.', dir='/dev/shm')
     try:
-        for x in ('wcmatch', 'tests', 'pyproject.toml'):
+        for x in ('wcmatch', 'tests', 'pyproject.toml', 'hatch_build.py', 'README.md', 'LICENSE.md', 'docs', 'mkdocs.yml', 'requirements'):
             p = os.path.join('/repo', x)
             (shutil.copytree if os.path.isdir(p) else shutil.copy)(p, os.path.join(work, x))
         r = subprocess.run('git init -q . && git apply --whitespace=nowarn %s' % os.path.join(d, 'patch.diff'), shell=True, cwd=work,
